@@ -126,4 +126,41 @@ func TestVerifC12Paths(t *testing.T) {
 			seenPath[tp] = l.String()
 		}
 	}
+
+	// long labels: the record's file name grows with the label (escaped package + "%2F" + escaped name); names that share
+	// a prefix of 64 .. 4096 bytes and differ only at the end, or in the middle, must still get records of their own
+	// (record_path_injective has no bound on the length).  Lengths bracket 128, 200, 255 (NAME_MAX), 256, 512 (thorough tier: 1024, 4096 too)
+	// raw and escaped ("ü" is 2 bytes raw, 6 escaped; '/' in the package is 3 escaped).
+	tip := func(p, n string) {
+		l := &label.Label{Package: p, Name: n}
+		tp := proj.targetInfoPath(l)
+		line("tip", c12hx(l.Kind), c12hx(l.Package), c12hx(l.Name), c12hx(tp[len("/W/"):]))
+		if prev, ok := seenPath[tp]; ok && prev != l.String() {
+			line("ORACLE", "record_path_collision", c12hx(prev), c12hx(l.String()))
+		}
+		seenPath[tp] = l.String()
+	}
+	lens := []int{64, 128, 199, 200, 201, 255, 256, 300, 512}
+	units := []string{"n", "ü"}
+	if maxLen > 6 { // thorough tier
+		lens = []int{40, 64, 100, 127, 128, 190, 199, 200, 201, 250, 254, 255, 256, 300, 511, 512, 1023, 1024, 4096}
+		units = []string{"n", "ü", "a b", "%"}
+	}
+	for _, n := range lens {
+		for _, unit := range units {
+			stem := strings.Repeat(unit, n/len(unit)+1)[:n/len(unit)*len(unit)]
+			for _, p := range []string{"//", "//pkg", "//" + strings.TrimSuffix(strings.Repeat("dir/", n/8+1), "/")} {
+				tip(p, stem)
+				tip(p, stem+"a")
+				tip(p, stem+"b")
+				tip(p, stem[:len(stem)/2]+"X"+stem[len(stem)/2:])
+				tip(p, "a"+stem)
+			}
+			// the same long text as the package, short names
+			tip("//"+stem, "a")
+			tip("//"+stem, "b")
+			tip("//"+stem+"/x", "a")
+			tip("//"+stem+"/y", "a")
+		}
+	}
 }
